@@ -22,3 +22,19 @@ func CheckSlotSpan(slotAfter func(delta time.Duration) common.Slot, slot common.
 	}
 	return nil
 }
+
+// CheckAttestationSlot checks if an attestation (or aggregate) of the given slot is within its propagation window,
+// with MAXIMUM_GOSSIP_CLOCK_DISPARITY margin in time.
+func CheckAttestationSlot(spec *common.Spec, slotAfter func(delta time.Duration) common.Slot, slot common.Slot) error {
+	if spec.SlotToEpoch(slot) < spec.DENEB_FORK_EPOCH {
+		return CheckSlotSpan(slotAfter, slot, ATTESTATION_PROPAGATION_SLOT_RANGE)
+	}
+	// [Modified in Deneb:EIP7045] the slot is not in the future, and its epoch is the current or previous epoch
+	if maxSlot := slotAfter(MAXIMUM_GOSSIP_CLOCK_DISPARITY); slot > maxSlot {
+		return fmt.Errorf("slot %d is too new, maximum slot is %d", slot, maxSlot)
+	}
+	if minEpoch := spec.SlotToEpoch(slotAfter(-MAXIMUM_GOSSIP_CLOCK_DISPARITY)).Previous(); spec.SlotToEpoch(slot) < minEpoch {
+		return fmt.Errorf("slot %d is too old, minimum epoch is %d", slot, minEpoch)
+	}
+	return nil
+}
